@@ -155,6 +155,10 @@ func (c *Config) Unpack(to interface{}, options ...Option) error {
 	if !isValid {
 		return raisePointerRequired(vTo)
 	}
+	if vTo.IsNil() {
+		// nothing to unpack into: a typed nil pointer or a nil map passed by value
+		return raiseNil(ErrNilValue)
+	}
 
 	return reifyInto(opts, vTo, c)
 }
@@ -176,6 +180,10 @@ func reifyInto(opts *options, to reflect.Value, from *Config) Error {
 
 	switch k {
 	case reflect.Map:
+		for to.Kind() == reflect.Ptr { // nil pointer (found via a pointer to it): allocate the map
+			to.Set(reflect.New(to.Type().Elem()))
+			to = to.Elem()
+		}
 		return reifyMap(opts, to, from, nil)
 	case reflect.Struct:
 		return reifyStruct(opts, to, from)
